@@ -35,7 +35,12 @@ class Probe:
 
     def cdd(self_, triplets, X, basis):
       out = pr.o2(self_, triplets, X, basis)
-      pr.dd = np.array(out, float).copy()
+      # the DOCUMENTED distance differences, computed here from the arguments (not read from the library's result): per
+      # triplet (a, b, c) and basis element e,  (e . (x_a - x_b))^2 - (e . (x_a - x_c))^2
+      T = np.asarray(triplets)
+      XB = np.matmul(np.asarray(X, float), np.asarray(basis, float).T)
+      pr.dd = np.square(XB[T[:, 0]] - XB[T[:, 1]]) - np.square(XB[T[:, 0]] - XB[T[:, 2]])
+      pr.dd_lib_equal = bool(np.shape(out) == pr.dd.shape and np.allclose(out, pr.dd, rtol=1e-12, atol=0))
       return out
     scml_mod._BaseSCML._components_from_basis_weights = cfb
     scml_mod._BaseSCML._compute_dist_diff = cdd
@@ -74,6 +79,7 @@ def gen_case(rng, supervised, lda_tail=False):
   output_iter = int(rng.choice([1, 4, 6, 12]))
   bsz = int(rng.integers(1, 5))
   few_triplets = (not supervised) and rng.random() < 0.25
+  disjoint = (not supervised) and (not few_triplets) and rng.random() < 0.3
   if few_triplets:
     bsz = int(rng.integers(6, 11))                   # (10 is the documented default)
   beta = float(rng.choice([1e-5, 1e-3, 1e-2]))
@@ -104,6 +110,10 @@ def gen_case(rng, supervised, lda_tail=False):
           if few_triplets:
             ntrip = int(rng.integers(d, 6))          # fewer triplets than the mini-batch holds (sampling is with replacement)
           idx = gen.triplets_from(rng, X, y, ntrip)
+          if disjoint and len(X) >= 3 * max(d, 3):
+            # every triplet brings its own three points (more distinct points than triplets; point numbers beyond the count)
+            pm = rng.permutation(len(X))
+            idx = pm[:len(X) // 3 * 3].reshape(-1, 3)
           est, ev['how'] = gen.fit_tuples_via(rng, gen.SCML(**kw), X, idx)
       ev['lowrank_warning'] = any('reduces the dimension' in str(x.message) for x in wrn)
       ev['L'] = dym(est.components_)
